@@ -24,8 +24,9 @@ PID = 'C08'
 class TrimModel(engine.RealModel):
     """real model + untrimmed twin + (after the trim) a save/load twin"""
 
-    def __init__(self, wb, src, workdir, ft):
+    def __init__(self, wb, src, workdir, ft, desc=False):
         super().__init__(wb, src, workdir)
+        self.desc = desc                  # order in which the inputs are listed
         self.twin = engine.RealModel(wb, src, workdir).m      # never trimmed
         self.reloaded = None
         self.ft = ft
@@ -51,7 +52,7 @@ class TrimModel(engine.RealModel):
                 for o in sorted(act['o']):
                     self.m.evaluate(W.addr(o))
                     self.twin.evaluate(W.addr(o))
-                self.m.trim_graph([W.addr(i) for i in sorted(act['i'])],
+                self.m.trim_graph([W.addr(i) for i in sorted(act['i'], reverse=self.desc)],
                                   [W.addr(o) for o in sorted(act['o'])])
                 self.trimmed = True
                 base = os.path.join(tlc.new_scratch('tw'), 'trimmed_model_x')
@@ -106,13 +107,23 @@ def trim_choices(wb, rnd, limit):
     outs = [list(c) for k in (1, 2) for c in itertools.combinations(cand_o, k)]
     allc = [(i, o) for i in ins for o in outs]
     rnd.shuffle(allc)
-    # choices that every run must contain (unbounded ranges below an output)
+    # choices that every run must contain: unbounded ranges below an output,
     must = [c for c in allc if wb.get('aliases') and len(c[0]) == 1 and len(c[1]) == 1][:3]
+    # a cell listed next to a range which contains it (both orders are used, see desc),
+    flat = {r: [c for row in wb['ranges'][r] for c in row] for r in plain}
+    last = n['formulas'][-1:]
+    must += [c for c in allc if len(c[0]) == 2 and c[1] == last and any(
+        r in c[0] and set(c[0]) - {r} <= set(flat[r]) for r in plain)][:3]
+    # an input which is blank when the model is trimmed, an array formula member
+    must += [c for c in allc if len(c[0]) == 1 and c[1] == last and (
+        wb['inputs'].get(c[0][0], 0) is None or
+        any(c[0][0] in row for r in wb.get('cse', {}) for row in W.cse_members(r)))][:2]
     return must + [c for c in allc if c not in must][:max(0, limit - len(must))], len(allc)
 
 
 def job(arg):
     name, src, ft, nchoices, seed = arg
+    desc = bool(seed % 2)
     rnd = random.Random(seed)
     wb = W.WORKBOOKS[name]
     choices, total = trim_choices(wb, rnd, nchoices)
@@ -131,7 +142,7 @@ def job(arg):
     drift = []
 
     def make_model():
-        return TrimModel(wb, src, workdir, ft)
+        return TrimModel(wb, src, workdir, ft, desc)
 
     def on_step(model, s, act, spec_ret, t, hist):
         out['cases'] += 1
@@ -139,7 +150,7 @@ def job(arg):
         variant = 'range' if act['op'] == 'set_value' and rnd.random() < 0.3 else 'str'
         status, got = model.do(act, variant=variant)
         case = dict(workbook=name, source=src, file_type=ft, cells=W.cells(wb)[0],
-                    history=list(hist))
+                    inputs_listed='descending' if desc else 'ascending', history=list(hist))
         if status == 'exc':
             out['violations'].append((f'{act} raised {got} [{name}/{src}]', case))
             return
@@ -181,11 +192,13 @@ def run(tier, seed):
     if tier == 'quick':
         for i, (name, src) in enumerate([('trimex', 'NoData'), ('trimex', 'Stored'),
                                          ('nested', 'NoData'), ('range', 'Stored'),
-                                         ('grid', 'NoData'), ('alias', 'NoData')]):
+                                         ('grid', 'NoData'), ('alias', 'NoData'),
+                                         ('blankin', 'NoData'), ('trimex', 'NoData'),
+                                         ('cse', 'NoData')]):
             jobs.append((name, src, ('yml', 'json', 'pkl')[i % 3], 12, seed + i))
     else:
         k = 0
-        for name in ('trimex', 'nested', 'range', 'grid', 'alias', 'chain', 'cse'):
+        for name in ('trimex', 'nested', 'range', 'grid', 'alias', 'chain', 'cse', 'blankin'):
             for src in ('NoData', 'Stored'):
                 for rep in range(2):
                     jobs.append((name, src, ('yml', 'json', 'pkl')[k % 3], 40, seed + k))
